@@ -63,4 +63,63 @@ Proof.
   - rewrite Hw. reflexivity.
 Qed.
 
+Lemma listing_nul : has_nul listing_name = false.
+Proof. vm_compute. reflexivity. Qed.
+
+Lemma safe_absent f n : blookup n (ents f D) = None -> safe f D [n].
+Proof. intros H. apply safe_unfold. rewrite H. exact I. Qed.
+
+Lemma rwalk_nil f : rwalk f D [] = Some D.
+Proof. reflexivity. Qed.
+
+(* os.Remove of the name: afterwards nothing is under it, or a directory that was there is still there *)
+Lemma os_remove_step_gen b f p n : relpath p [n] -> has_nul p = false -> wf f -> b <= f_next f ->
+  let f1 := os_remove c f p in
+  step TAll b f f1 /\
+  (blookup n (ents f1 D) = None \/
+   (f1 = f /\ exists i, blookup n (ents f D) = Some i /\ is_dir f i = true)).
+Proof.
+  intros listing_relpath listing_nul W Hb. cbv zeta. unfold os_remove.
+  assert (HT : forall dd, rwalk f D [] = Some dd -> is_dir f dd = true -> TAll dd n) by (intros; exact I).
+  destruct (sys_unlink_step D TAll b c f p [] n W Hb eq_refl listing_relpath I HT) as [S1 A1].
+  destruct (sys_rmdir_step D TAll b c f p [] n W Hb eq_refl listing_relpath I HT) as [S2 A2].
+  pose proof (resolve_one f p n false listing_relpath listing_nul (wf_dir D f W)) as Hr.
+  destruct (sys_unlink c f p) as [g r] eqn:Eu. cbn [fst snd] in *.
+  destruct r as [|e| | | |].
+  - split; [exact S1|]. left. apply (A1 eq_refl D (rwalk_nil f)).
+  - (* unlink refused *)
+    destruct (blookup n (ents f D)) as [i|] eqn:Eb.
+    + specialize (Hr (or_intror eq_refl)).
+      unfold sys_unlink in Eu. rewrite Hr in Eu. cbn [l_ino l_dir l_name] in Eu.
+      destruct (is_dir f i) eqn:Edi; [|inversion Eu].
+      destruct (sys_rmdir c f p) as [g2 r2] eqn:Er. cbn [fst snd] in *.
+      split; [exact S2|].
+      destruct (rerr r2) eqn:E2.
+      * right. unfold sys_rmdir in Er. rewrite Hr in Er. cbn [l_ino l_dir l_name] in Er.
+        destruct (dir_of f i) as [[pp es]|]; [|inversion Er; subst; split; [reflexivity|exists i; auto]].
+        destruct (is_nil n); [inversion Er; subst; split; [reflexivity|exists i; auto]|].
+        destruct (is_nil es); [inversion Er; subst; discriminate|].
+        inversion Er; subst. split; [reflexivity|exists i; auto].
+      * left. apply (A2 eq_refl D (rwalk_nil f)).
+    + (* nothing there *)
+      destruct (sys_rmdir c f p) as [g2 r2] eqn:Er. cbn [fst snd] in *.
+      split; [exact S2|]. left.
+      unfold sys_rmdir in Er. rewrite Hr in Er. cbn [l_ino] in Er. inversion Er; subst. exact Eb.
+  - exfalso. unfold sys_unlink in Eu. destruct (resolve c f p false) as [lr|]; [|inversion Eu].
+    destruct (l_ino lr) as [j|]; [|inversion Eu]. destruct (is_dir f j); inversion Eu.
+  - exfalso. unfold sys_unlink in Eu. destruct (resolve c f p false) as [lr|]; [|inversion Eu].
+    destruct (l_ino lr) as [j|]; [|inversion Eu]. destruct (is_dir f j); inversion Eu.
+  - exfalso. unfold sys_unlink in Eu. destruct (resolve c f p false) as [lr|]; [|inversion Eu].
+    destruct (l_ino lr) as [j|]; [|inversion Eu]. destruct (is_dir f j); inversion Eu.
+  - exfalso. unfold sys_unlink in Eu. destruct (resolve c f p false) as [lr|]; [|inversion Eu].
+    destruct (l_ino lr) as [j|]; [|inversion Eu]. destruct (is_dir f j); inversion Eu.
+Qed.
+
+Lemma os_remove_step b f : wf f -> b <= f_next f ->
+  let f1 := os_remove c f listing_name in
+  step TAll b f f1 /\
+  (blookup listing_name (ents f1 D) = None \/
+   (f1 = f /\ exists i, blookup listing_name (ents f D) = Some i /\ is_dir f i = true)).
+Proof. apply os_remove_step_gen; [exact listing_relpath|exact listing_nul]. Qed.
+
 End Epilogue.
